@@ -1,10 +1,10 @@
 package props
 
 import (
-	"strconv"
-	"path/filepath"
-	"os"
 	"math"
+	"os"
+	"path/filepath"
+	"strconv"
 	"strings"
 	"sync"
 
